@@ -186,6 +186,8 @@ def check(repo, rep, tier):
              'categories of either language -- a member read on a feature exists on both feature classes or is guarded')
     from .c14 import r_feature_methods
     r_feature_methods(repo, rep, 'R8.7')
+    from .c05 import r_atoms
+    r_atoms(repo.module('depccg/cat.py'), rep, 'R8.7')      # the categories of a line are read by Category.parse: an atom keeps the feature that is written
     am = repo.module(AUTO)
     p, (lst, leaf), (nst, node) = writer_templates(am, 'auto_of')
     ltoks = codec.fstr_tokens(leaf)
